@@ -2,6 +2,7 @@
 #include <cstdlib>
 #include <cstring>
 #include <mutex>
+#include <map>
 
 #if defined(__has_feature)
 #if __has_feature(address_sanitizer)
@@ -21,6 +22,7 @@ namespace va {
 
 State g;
 static std::mutex mu;
+static std::map<const uint8_t*, std::pair<size_t, uint64_t>> g_index;   // user pointer -> (size, serial)
 
 struct Guard {
   bool on;
@@ -56,6 +58,7 @@ static void* alloc_block(size_t n, uint64_t origin) {
   if (!h) { g.refused_total++; return nullptr; }
   h->magic = MAGIC_LIVE; h->size = n; h->serial = ++g.serial; h->origin = origin;
   link(h);
+  if (g.index_blocks) g_index[(const uint8_t*)user_of(h)] = {n, h->serial};
   g.live_blocks++; g.live_bytes += n;
   if (g.log_sizes) g.granted_log.push_back(n);
   POISON(h, HDR);
@@ -74,6 +77,7 @@ static bool release_block(void* p) {
   if (h->magic == MAGIC_DEAD) { g.double_free++; return false; }
   if (h->magic != MAGIC_LIVE) { g.foreign_free++; return false; }
   unlink(h);
+  if (g.index_blocks) g_index.erase((const uint8_t*)user_of(h));
   h->magic = MAGIC_DEAD;
   if (g.log_frees) g.freed_serials.push_back(h->serial);
   g.live_blocks--; g.live_bytes -= h->size;
@@ -151,12 +155,13 @@ size_t size_of(const void* p) {
   return (size_t)-1;
 }
 
-uint64_t peek_serial(const void* p) {
-  Hdr* h = hdr_of((void*)p);
-  UNPOISON(h, HDR);
-  uint64_t s = h->magic == MAGIC_LIVE ? h->serial : 0;
-  POISON(h, HDR);
-  return s;
+uint64_t serial_containing(const void* p) {
+  auto it = g_index.upper_bound((const uint8_t*)p);
+  if (it == g_index.begin()) return 0;
+  --it;
+  size_t sz = it->second.first;
+  if ((const uint8_t*)p < it->first + (sz ? sz : 1)) return it->second.second;
+  return 0;
 }
 
 uint64_t image_hash() {
